@@ -395,8 +395,39 @@ func runC06(c *Ctx) {
 			c.Ob("C06-R4", "Process passes the block pool and one cumulative counter to every ApplyTransaction", c.Position(s.Pos()),
 				regexp.MustCompile(`^new\(GasPool\)(~\d+)?\.AddGas\(Block#0\.GasLimit\(\)\)$`).MatchString(gp) && strings.HasPrefix(ug, "new(uint64)"), "pool="+gp+" usedGas="+ug)
 		}
+		// receipts imported without execution (fast sync): the per-receipt gas is re-derived from the cumulative
+		// counters - first receipt: its cumulative value; receipt j: cumulative[j] - cumulative[j-1]
+		srd := c.Fn("core:SetReceiptsData")
+		fsr := c.Facts(srd)
+		var gasStores []string
+		for _, b := range srd.Blocks {
+			for _, ins := range b.Instrs {
+				if stI, ok := ins.(*ssa.Store); ok {
+					if fa, ok := stI.Addr.(*ssa.FieldAddr); ok && fieldName(fa) == "GasUsed" {
+						gasStores = append(gasStores, fsr.tr.term(nil, fa.X, 0)+" := "+fsr.tr.term(nil, stI.Val, 0))
+					}
+				}
+			}
+		}
+		sort.Strings(gasStores)
+		okFirst, okRest := false, false
+		for _, g := range gasStores {
+			if m := mustRe(`^(.+)\[(`+PH+`)\] := (.+)\[(`+PH+`)\]\.CumulativeGasUsed$`).FindStringSubmatch(g); m != nil && m[1] == m[4] && m[2] == m[5] {
+				okFirst = true
+			}
+			if m := mustRe(`^(.+)\[(`+PH+`)\] := \((.+)\[(`+PH+`)\]\.CumulativeGasUsed - (.+)\[\((`+PH+`) - 1\)\]\.CumulativeGasUsed\)$`).FindStringSubmatch(g); m != nil &&
+				m[1] == m[4] && m[1] == m[7] && m[2] == m[5] && m[2] == m[8] {
+				okRest = true
+			}
+		}
+		c.Ob("C06-R4", "SetReceiptsData derives receipt gas as cumulative[j] - cumulative[j-1] (cumulative[0] for the first)", c.FnPos(srd), okFirst && okRest && len(gasStores) == 2, strings.Join(gasStores, " | "))
 	})
 	c.Min("C06-R4", 7)
+
+	// the block's gas-used commitment (and the other header commitments) is compared with the value recomputed from the
+	// receipts on every accepting path of the validator: decided by C01's commitment rule, shared here because the
+	// clause "cumulative gas equals the sum over the receipts" belongs to this property too
+	c.Borrow("C01", runC01, map[string]string{"C01-R2": "C06-R5"})
 }
 
 // storeIs: every store in fn to a struct field named `field` stores a value matching re; at least one exists.
